@@ -3,7 +3,7 @@
    the two options in either order) the output keeps type, structure and number of ordinates.
    MODE = "wkt": the tokens of the encoder's text with every number replaced by a placeholder equal the
    canonical rendering of the tree; MODE = "geojson": the JSON tree equals the RFC 7946 object of the
-   geometry with the bbox member of the right arity and values in front (collections, geometries without
+   geometry with a bbox member in front whose arity is the one the encoder uses without a digit limit and whose values are right (collections, geometries without
    coordinates and multipoints with an empty member included: GeoJSONOut). *)
 EXTENDS WKTRender, Json, IOUtils
 GJ == INSTANCE GeoJSON
@@ -19,8 +19,18 @@ FlatC(t, body) ==      \* all coords of a body
     [] t = "MPG" -> IF body = <<>> THEN <<>> ELSE FlatC("PG", body[1]) \o FlatC(t, Tail(body))
 MinOf(cs, k) == CHOOSE v \in {cs[i][k] : i \in DOMAIN cs} : \A i \in DOMAIN cs : v <= cs[i][k]
 MaxOf(cs, k) == CHOOSE v \in {cs[i][k] : i \in DOMAIN cs} : \A i \in DOMAIN cs : v >= cs[i][k]
-BBoxOf(g) == LET cs == FlatC(g.t, g.body)  n == IF g.l \in {"XYZ", "XYZM"} THEN 3 ELSE 2 IN
-             [k \in 1..(2 * n) |-> IF k <= n THEN MinOf(cs, k) ELSE MaxOf(cs, k - n)]
+\* over the first n dimensions of the layout
+BBoxOf(g, n) == LET cs == FlatC(g.t, g.body) IN [k \in 1..(2 * n) |-> IF k <= n THEN MinOf(cs, k) ELSE MaxOf(cs, k - n)]
+\* "unchanged ... including a GeoJSON bounding box": how many dimensions a box has is not stated; it must be what the same
+\* encoder writes WITHOUT a digit limit (ref).  When that reference is not usable, any n with 2 <= n <= ordinates per position.
+Dims(g, ref) ==
+  LET any == 2..GJ!Stride(g.l) IN
+  IF ref.err # "" THEN any
+  ELSE IF ref.json[1] # "o" THEN any
+  ELSE IF ~GJ!Has(ref.json, "bbox") THEN any
+  ELSE LET b == GJ!Get(ref.json, "bbox") IN
+       IF b[1] # "a" THEN any
+       ELSE IF \E n \in any : Len(b[2]) = 2 * n THEN {Len(b[2]) \div 2} ELSE any
 \* ---- gap-free structure rules
 \* a MultiPoint member without coordinates: the plain encoder writes null, the digit-limited one an empty array - either way a
 \* member with no ordinates (the property fixes the structure, not this spelling)
@@ -31,8 +41,8 @@ EncAlt(g) ==
                                      <<"type", GJ!Str("MultiPoint")>> >>)
   ELSE GJ!EncGeom(g)
 Encs(g) == {GJ!EncGeom(g), EncAlt(g)}
-BBoxMember(g) == <<"bbox", GJ!Arr([k \in DOMAIN BBoxOf(g) |-> GJ!Num(BBoxOf(g)[k])])>>
-WithBBoxes(g) == {GJ!Obj(<<BBoxMember(g)>> \o o[2]) : o \in Encs(g)}
+BBoxMember(g, n) == <<"bbox", GJ!Arr([k \in DOMAIN BBoxOf(g, n) |-> GJ!Num(BBoxOf(g, n)[k])])>>
+WithBBoxes(g, dims) == UNION {{GJ!Obj(<<BBoxMember(g, n)>> \o o[2]) : o \in Encs(g)} : n \in dims}
 RECURSIVE HasCoordsGJ(_)
 HasCoordsGJ(g) == IF g.t = "GC" THEN \E k \in DOMAIN g.body : HasCoordsGJ(g.body[k])
                   ELSE IF g.t = "PT" THEN g.body # <<>> ELSE FlatC(g.t, g.body) # <<>>
@@ -42,12 +52,12 @@ NumArr(j, lens) == j[1] = "a" /\ Len(j[2]) \in lens /\ \A k \in DOMAIN j[2] : j[
 CollWithBBoxOK(g, j) ==
   /\ j[1] = "o" /\ GJ!Has(j, "bbox") /\ NumArr(GJ!Get(j, "bbox"), {4, 6})
   /\ GJ!Obj(SelectSeq(j[2], LAMBDA kv : kv[1] # "bbox")) \in Encs(g)
-GeoJSONOut(g, o) ==
+GeoJSONOut(g, o, ref) ==
   IF ~o.bbox THEN (IF o.err # "" THEN "geojson|encode-error" ELSE IF o.json \notin Encs(g) THEN "geojson|structure-changed" ELSE "ok")
   ELSE IF ~HasCoordsGJ(g) THEN (IF o.err = "" /\ o.json[1] # "o" THEN "geojson|invalid-json" ELSE "ok")   \* a box of nothing: not the property's subject
   ELSE IF g.t = "GC" THEN (IF o.err = "" /\ ~CollWithBBoxOK(g, o.json) THEN "geojson|collection-bbox" ELSE "ok")
   ELSE IF o.err # "" THEN "geojson|encode-error"
-  ELSE IF o.json \notin WithBBoxes(g) THEN "geojson|bbox"
+  ELSE IF o.json \notin WithBBoxes(g, Dims(g, ref)) THEN "geojson|bbox"
   ELSE "ok"
 \* ---- "the output remains valid WKT": the library's own parser accepts it and returns the same type, structure and number
 \* of ordinates (the dimension of a geometry without any position is not a number of ordinates: left open)
@@ -78,7 +88,7 @@ Clause(r) ==
      ELSE IF \E k \in DOMAIN r.outs : ~ReparseOK(r.case.g, r.outs[k].re) THEN "wkt|own-parser"
      ELSE "ok")
   ELSE
-    LET cs == [k \in DOMAIN r.outs |-> GeoJSONOut(r.case.g, r.outs[k])] IN
+    LET cs == [k \in DOMAIN r.outs |-> GeoJSONOut(r.case.g, r.outs[k], r.ref)] IN
     IF \A k \in DOMAIN cs : cs[k] = "ok" THEN "ok" ELSE cs[CHOOSE k \in DOMAIN cs : cs[k] # "ok" /\ \A j \in DOMAIN cs : j < k => cs[j] = "ok"]
 VARIABLES i, bad
 Init == i = 1 /\ bad = 0
